@@ -71,9 +71,31 @@ def gen_scenario(rng, big=False):
     return "\n".join(lines) + "\n"
 
 
+def gen_deep(rng, d):
+    """a recursive mutex nested d levels deep by one caller and released level by level, while another caller keeps
+    trying: the mutex stays held until the last level is gone (nesting depths around 2^8 and beyond)"""
+    nes = rng.choice([0, 1])
+    kind = rng.choice(["rec", "static_rec"])
+    lines = ["SEED %d" % rng.randint(1, 10**9), "NES %d" % nes, "WATCHDOG 30", "MUTEX 0 %s" % kind]
+    locks = [rng.choice(["L0", "L0", "T0", "l0", "h0"]) for _ in range(d)]
+    locks[0] = "L0"
+    unl = []
+    for i in range(d):
+        unl.append(rng.choice(["U0", "U0", "u0", "d0"]))
+        if i < 6 or i % 64 == 0:
+            unl.append(rng.choice(["Y", "W"]))
+    lines.append("THREAD 0 %s %d : %s" % (rng.choice("UE"), rng.randint(0, nes), " ".join(locks + ["Y"] + unl)))
+    tries = []
+    for _ in range(rng.randint(20, 60)):
+        tries += ["T0", "U0", rng.choice(["Y", "W"])]
+    lines.append("THREAD 1 %s %d : %s" % (rng.choice("UE"), rng.randint(0, nes), " ".join(tries)))
+    return "\n".join(lines) + "\n"
+
+
 def gen(rng, tier):
     n = 160 if tier == "quick" else 1500
-    return [gen_scenario(rng, big=(tier != "quick" and i % 3 == 0)) for i in range(n)], {"scenarios": n}
+    deep = [gen_deep(rng, d) for d in ([200, 256, 257, 300] if tier == "quick" else [2, 255, 256, 257, 258, 300, 511, 512, 513, 1000])]
+    return deep + [gen_scenario(rng, big=(tier != "quick" and i % 3 == 0)) for i in range(n)], {"scenarios": n + len(deep), "deep_recursion": len(deep)}
 
 
 def run(tier, seed, replay):
